@@ -133,4 +133,38 @@ theorem padding_exact (m : Msg) : ((encodeMsg m).length - (encodeBody m).length)
   unfold align8 padLen
   omega
 
+/-! ### edits keep a message valid
+
+  FULL STATEMENT: every header edit the API admits turns a well-formed message into a well-formed message (so that
+  `edit_roundtrip` applies unconditionally).  PROVED PART: the serial (`setSerial_keeps_valid`, hence
+  `setSerial_roundtrip`).  For field edits the statement needs the per-field preconditions of the setters (the value is a valid
+  name/path/signature of the right type, mandatory fields are not deleted, the signature field is not touched) and an
+  argument that a field struct's well-formedness does not depend on which 8-aligned offset it starts at; that part is
+  covered by the correspondence (byte-identical serialisation after every edit, and the edited bytes load) only. -/
+
+theorem encode_fixed_len (e : Endian) (off : Nat) (b : BTy) (n n' : Nat) :
+    (encode e off (.fixed b n)).length = (encode e off (.fixed b n')).length := by
+  simp [encode, Dbus.Proofs.Wire.encNat_length]
+
+/-- `dbus_message_set_serial` with a serial that is not 0 (the API's precondition) keeps a valid message valid -/
+theorem setSerial_keeps_valid (mx fds : Nat) (m : Msg) (n : Nat) (h : WFMsg mx fds m) (hn : n ≠ 0) (hlt : n < 2 ^ 32) :
+    WFMsg mx fds (applyEdit m (.setSerial n)) := by
+  refine { mtype_ne := h.mtype_ne, version_eq := h.version_eq, serial_ne := hn, header_wf := ?_, fields_ok := h.fields_ok,
+           mandatory := h.mandatory, body_types := h.body_types, body_wf := h.body_wf, falen_le := h.falen_le, blen_le := h.blen_le,
+           total_le := h.total_le, fds_ok := h.fds_ok }
+  have hw := h.header_wf
+  show WFFields m.endian 0 0 (headerValues m.endian m.mtype m.flags m.version (encodeBody m).length n m.fields) headerTypes
+  simp only [headerValues, headerTypes, WFFields] at hw ⊢
+  refine ⟨hw.1, hw.2.1, hw.2.2.1, hw.2.2.2.1, hw.2.2.2.2.1, ?_, ?_⟩
+  · simp only [WFVal] at hw ⊢
+    exact ⟨trivial, rfl, by show n < 256 ^ 4; omega, by intro h; cases h⟩
+  · rw [encode_fixed_len m.endian _ .u32 n m.serial]
+    exact hw.2.2.2.2.2.2
+
+/-- … so the message with its new serial serialises to bytes that load back as exactly that message -/
+theorem setSerial_roundtrip (mx fds : Nat) (m : Msg) (n : Nat) (h : WFMsg mx fds m) (hn : n ≠ 0) (hlt : n < 2 ^ 32) :
+    loadOne true mx fds (encodeMsg (applyEdit m (.setSerial n))) =
+      .ok (applyEdit m (.setSerial n)) (encodeMsg (applyEdit m (.setSerial n))).length :=
+  edit_roundtrip mx fds m (.setSerial n) (setSerial_keeps_valid mx fds m n h hn hlt)
+
 end Dbus.Props.C12
